@@ -30,6 +30,16 @@ def decReq (j : Json) : Except String Req := do
   let sat ← (← fieldArr j "sat").mapM asNat
   return { origin := o, sat := fun i => sat.contains i }
 
+/-- a recipe tree: entries `{"p":"plain","c":..,"h":..}`, `{"p":"builtin","c":..}`,
+    `{"p":"nested","c":..,"opt":n,"recipe":[..]}` -/
+partial def decProv (j : Json) : Except String Prov := do
+  let k ← fieldStr j "p"
+  match k with
+  | "plain" => return .plain (← decChecker (← field j "c")) (← decHandler (← field j "h"))
+  | "builtin" => return .builtin (← decChecker (← field j "c"))
+  | "nested" => return .nested (← decChecker (← field j "c")) (← fieldNat j "opt") (← (← fieldArr j "recipe").mapM decProv)
+  | _ => throw s!"bad recipe entry {k}"
+
 def encItem : Item Nat → Json
   | .single c h => Json.mkObj [("item", "single"), ("checker", encChecker c), ("handler", natJ h)]
   | .table m => Json.mkObj [("item", "table"),
@@ -71,6 +81,11 @@ def handle : Protocol.Handler := fun j => do
     let hs ← (← fieldArr j "handlers").mapM decHandler
     let r ← decReq (← field j "req")
     return encResult (specSend (matching r (cs.zip hs)))
+  | "serve_tree" =>
+    -- a retort (option + full recipe with nested retorts) serving one request; "depth" >= nesting depth + 1
+    let ps ← (← fieldArr j "recipe").mapM decProv
+    let r ← decReq (← field j "req")
+    return encResult (serveTree r (← fieldNat j "depth") (← fieldNat j "opt") ps)
   | "full_recipe" =>
     let get (k : String) := do (← fieldArr j k).mapM asNat
     let rr : RetortRecipe Nat := { head := ← get "head", inst := ← get "inst", cls := ← get "cls", tail := ← get "tail" }
